@@ -158,10 +158,12 @@ class Run:
                 if slot[1] is None:
                     slot[1] = {"kind": kind, "witness": witness}
                 return False
-        if len(self.violations) < 200:
+        self._per_kind = getattr(self, "_per_kind", {})
+        self._per_kind[kind] = self._per_kind.get(kind, 0) + 1
+        if self._per_kind[kind] <= 25:
             self.violations.append({"kind": kind, "witness": witness, "mech": mech})
         else:
-            self.count("violations_beyond_200")
+            self.count("violations_not_listed_beyond_25_per_kind")
         return True
 
     def inconclusive_because(self, why):
@@ -196,7 +198,7 @@ class Run:
             "coverage": cov,
             "assumptions": self.assumptions,
             "wall_s": round(time.time() - self.t0, 3),
-            "violations": len(self.violations),
+            "violations": len(self.violations) + self.monitors.get("violations_not_listed_beyond_25_per_kind", 0),
         }
         with open(os.path.join(EVIDENCE, self.pid + ".json"), "w", encoding="utf-8") as f:
             json.dump(ev, f, indent=1, default=_json_default, ensure_ascii=False)
@@ -204,19 +206,26 @@ class Run:
         for fid, (n, ex, f) in sorted(self.known_hits.items()):
             print("KNOWN-FINDING: property=%s %s (%s; observed %d times this run)" % (self.pid, fid, f.get("what", ""), n))
         code = 0
+        import glob
+        for old_ in glob.glob(os.path.join(REPLAYS, "%s-%s-*.json" % (self.pid, tier()))):
+            try:
+                os.remove(old_)
+            except OSError:
+                pass
         if self.violations:
             os.makedirs(REPLAYS, exist_ok=True)
-            seen = set()
+            seen = []
             for i, v in enumerate(self.violations):
                 k = v["kind"]
                 path = os.path.join(REPLAYS, "%s-%s-%d.json" % (self.pid, tier(), i))
                 with open(path, "w", encoding="utf-8") as f:
                     json.dump({"property": self.pid, "seed": seed(), "tier": tier(), **v}, f, indent=1, default=_json_default, ensure_ascii=False)
-                if k in seen and i >= 20:
+                nseen = sum(1 for x in seen if x == k)
+                seen.append(k)
+                if nseen >= 3:
                     continue
-                seen.add(k)
                 print("VIOLATION property=%s replay=%s kind=%s" % (self.pid, path, k))
-                if i < 8:
+                if nseen < 1:
                     txt = canon(v["witness"])
                     print("    witness: " + (txt[:600] + ("..." if len(txt) > 600 else "")))
             code = 1
